@@ -76,7 +76,11 @@ impl TwoFloat {
     /// assert!((b - c).abs() < 1e-10);
     /// ```
     pub fn acosh(self) -> Self {
-        (self + (self * self - 1.0).sqrt()).ln()
+        if self < 1.0 {
+            Self::NAN
+        } else {
+            (self + (self * self - 1.0).sqrt()).ln()
+        }
     }
 
     /// Inverse hyperbolic sine function.
